@@ -24,7 +24,7 @@ import (
 )
 
 func main() {
-	Main(map[string]PropFunc{"C01": run, "C07": run, "C08": run, "C10": run})
+	Main(map[string]PropFunc{"C01": run, "C07": run, "C08": run, "C10": run, "C02": runIOS})
 }
 
 // The JSON names differ from those of harness/asacfg and harness/f1 on purpose: `./check Cxx --replay` hands a replay
@@ -400,12 +400,13 @@ func run(ctx *Ctx) *Result {
 		// execute
 		ex := &executor{d: c.dev.clone()}
 		var states []*vdev
+		skipped := false
 		for i, cmd := range cmds {
 			if repointedRule(ex.d, ex.mode, strings.Fields(cmd)) {
 				repointed = true
 			}
 			if err := ex.exec1(cmd); err != nil {
-				if la != nil && la.acc {
+				if la != nil && la.acc && !skipped {
 					res.Disagree("vpn-device", c, "dev.go rejects command "+fmt.Sprint(i)+": "+err.Error(), "NA.Vpn.applyAll accepts the script")
 				}
 				if prop == "C08" || prop == "C01" || prop == "C10" {
@@ -419,6 +420,7 @@ func run(ctx *Ctx) *Result {
 					}
 					res.Count("c07:rejected-command-skipped")
 					states = append(states, ex.d.clone())
+					skipped = true
 					continue
 				}
 				return
@@ -430,7 +432,7 @@ func run(ctx *Ctx) *Result {
 		}
 		res.TracesVsImpl++
 		final := ex.d
-		if la != nil && !la.acc {
+		if la != nil && !la.acc && !skipped {
 			res.Disagree("vpn-device", c, "dev.go accepts the script", "NA.Vpn.applyAll rejects it")
 		}
 		if len(res.Samples) < 3 && len(cmds) > 6 {
